@@ -7,6 +7,7 @@ well-formed BGZF file (any block layout: records may end on, before or after blo
 blocks anywhere) whose flat stream is a header followed by length-prefixed records.
 -/
 import Hts.Lemmas.BamFile
+import Hts.Lemmas.CRRun
 namespace Hts.Props.C13
 open Hts.Model.Bgzf Hts.Spec.Flat
 
@@ -145,5 +146,46 @@ theorem reader_states_closed {F : File} (hwf : WF F) (br : BamReader) (s : State
     (∃ s', BSim F br.read.1 s') ∧
     (∀ c, (∀ c', c = some c' → (seekTarget (layoutOf F) c'.bgn).isSome) → ∃ s', BSim F (br.setChunk c).1 s') :=
   ⟨bsim_read hwf h, fun c hv => bsim_setChunk hwf h c hv⟩
+
+/-- **ChunkReader.** For every well-formed file, from any state of the underlying `bgzf.Reader`, and for every
+list of chunks that is ordered and non-overlapping (each `Begin` a seek target, each `End` any offset that
+names a position — any representation, including `(next base, 0)`, an empty block's `(base, 0)` or
+`(fileLen, 0)` — chunks may touch or be empty): `NewChunkReader` succeeds, and for **any** sequence of buffer
+sizes the bytes the client loop sees are a prefix of the flat bytes between each `Begin` and `End`,
+concatenated; the only error is `io.EOF`; when it is reported exactly those bytes have been delivered; and
+with non-empty buffers it is reported after at most `readBound` calls.
+(About the repaired `Read`, fixes/C13-1-chunkreader-empty-chunk.diff.) -/
+theorem chunkreader_exact {F : File} (hwf : WF F) (r0 : Reader) (s : State) (hsim : Sim F r0 s)
+    (xs : List CSpec) (hv : ∀ x ∈ xs, x.Valid F) (ho : Ordered xs) :
+    ∃ cr, ChunkReader.new r0 (xs.map (·.c)) = .ok cr ∧ ∀ ns : List Nat,
+      (∃ rest, expected F xs = (cr.readAll ns).1 ++ rest) ∧
+      ((cr.readAll ns).2 = none ∨ (cr.readAll ns).2 = some .eof) ∧
+      ((cr.readAll ns).2 = some .eof → (cr.readAll ns).1 = expected F xs) ∧
+      ((∀ n ∈ ns, 0 < n) → readBound F xs < ns.length → (cr.readAll ns).2 = some .eof) :=
+  chunkReader_spec hwf hsim xs hv ho
+
+/-! ### Non-vacuity -/
+
+example : BamFile exBam [4] [[9], [7, 8]] :=
+  ⟨exBam_wf, by simp [HdrOk, exBam, flatLen], by simp [sumNat, exBam, flatLen],
+   ⟨by decide, by intro b hb; simp at hb; rcases hb with rfl | rfl <;> simp⟩⟩
+
+example : ∃ br0, BamReader.new exBam [4] = .ok br0 ∧
+    (br0.readN 3).2 = ([([9], ⟨⟨0, 4⟩, ⟨0, 9⟩⟩), ([7, 8], ⟨⟨68, 0⟩, ⟨101, 3⟩⟩)], some .eof) :=
+  ⟨_, rfl, by decide⟩
+
+/-- Two chunks over `exFile` (`[1,2,3] | [] | [4,5] | []`): `[1, 3)` ending at a block end given as the empty
+block's `(30, 0)`, and `[3, 5)` ending at `(fileLen, 0)`. -/
+def exChunks : List CSpec := [⟨⟨⟨0, 1⟩, ⟨30, 0⟩⟩, 1, 3⟩, ⟨⟨⟨58, 0⟩, ⟨117, 0⟩⟩, 3, 5⟩]
+
+example : (∀ x ∈ exChunks, x.Valid exFile) ∧ Ordered exChunks := by
+  refine ⟨?_, by simp [exChunks, Ordered]⟩
+  intro x hx
+  simp [exChunks] at hx
+  rcases hx with rfl | rfl
+  · exact ⟨by simp [exFile, layoutOf, seekTarget], by simp [exFile, layoutOf, toLogical, seekTarget], by simp⟩
+  · exact ⟨by simp [exFile, layoutOf, seekTarget], by simp [exFile, layoutOf, toLogical, seekTarget, fileLen, total], by simp⟩
+
+example : expected exFile exChunks = [2, 3, 4, 5] := by decide
 
 end Hts.Props.C13
